@@ -46,13 +46,21 @@ def run(ctx):
             ctx.broken.append(("translator omp_owner.py: parallel regions left the owner-computes form: " + ", ".join(info["missing_expected"]),
                                "\n".join(f"{k}: {why.get(k, 'region no longer present')}" for k in info["missing_expected"])))
     translator_failed = any(b[0].startswith("translator omp_extract.py") for b in ctx.broken)
+    # a work vector declared before `#pragma omp parallel` and used inside is shared by the team (C11.private_scratch states that the
+    # line-solver workspaces are declared inside); the concrete schedule on which that matters is searched on the implementation below
+    shared_ws = []
+    if not translator_failed:
+        shared_ws = [(x["function"], x.get("shared_locals", [])) for x in gen["regions"] if x.get("shared_locals")]
+        if shared_ws:
+            ctx.broken.append(("translator omp_extract.py: work vectors declared outside the parallel region are used inside it (shared by all threads)",
+                               "; ".join(f"{f}: {', '.join(v)}" for f, v in shared_ws)))
     ctx.prove(extra_modules=("GMGProofs.Props.C11o",))
     # dynamic search on the implementation (always cheap; the only search left when the regions no longer have the extractable form):
     # a race between two iterations of one phase shows as run-to-run / thread-count dependence of the operator's output
     ctx.also_props = ("C12",)
     hp = ctx.build_harness("h_par")
     ctx.pipe([hp, "resid", "40" if (translator_failed or ctx.tier != "quick") else "12"], "par", label="residual-race-probe")
-    if translator_failed:
+    if translator_failed or shared_ws:
         ctx.pipe([hp, "ops", "2", "13", "24"], "par", label="operator-race-probe")
         if not ctx.failing:
             tsan(ctx)
